@@ -207,7 +207,14 @@ def parse_callee(path):
     ci.qself = ci.trait = ci.prefix = None
     ci.qbase = ci.tbase = ci.targ = ci.pbase = None
     p = path.strip()
-    if p.startswith('<') and not p.startswith('<impl '):
+    qualified = p.startswith('<') and not p.startswith('<impl ')
+    if p.startswith('<impl '):
+        # `<impl Trait as Trait>::method`: a call through an `impl Trait` argument (generic helper taking impl FnOnce / impl IntoIterator)
+        try:
+            qualified = find_top(p[1:match_close(p, 0)], ' as ') >= 0
+        except Exception:
+            qualified = False
+    if qualified:
         close = match_close(p, 0)
         inner = p[1:close]
         k = find_top(inner, ' as ')
